@@ -7,6 +7,7 @@ import warnings
 import vlib
 from vlib import gZ, gQ, gN
 from props import c01_gen as G
+from props import c01_gen2 as G2
 
 F = fractions.Fraction
 PID = 'C01'
@@ -81,6 +82,19 @@ def gen_cases(rng, tier, ctx):
     # exhaustive small scope of four-entry tables over binary alphabets (thorough: all 3744; quick: a random 60)
     allt = G.enum_table_cases()
     cases.extend(allt if tier != 'quick' else rng.sample(allt, 60))
+    # round 3: name-coincidence (loop index rebound by a mapping, x -> 2*x, swaps, a parameter called `t`), aliasing
+    # (one template object in several places, create_program called before with other values), dropped-longest-channel /
+    # declared-as-empty families
+    cases.extend(G2.gen_round3(rng, tier))
+    # ... and the two input-independent variations applied to a part of the generic stream
+    for c in rng.sample(base, 40 if tier == 'quick' else 800):
+        c2 = G2.with_t_name(rng, c)
+        if c2 is not None:
+            cases.append(c2)
+    for c in rng.sample(base, 30 if tier == 'quick' else 600):
+        c2 = dict(c)
+        c2['warm'] = {k: str(F(v) + rng.choice([F(1), F(-1), F(1, 2)])) for k, v in c['params'].items()}
+        cases.append(c2)
     return cases
 
 
@@ -102,7 +116,16 @@ def expr_str(e):
     return '(%s %s %s)' % (expr_str(e[1]), k, expr_str(e[2]))
 
 
-def build(n):
+def build(n, memo=None):
+    """the qupulse object of a JSON tree; structurally equal sub-trees become ONE shared Python object"""
+    memo = {} if memo is None else memo
+    key = vlib.canonical_hash(n)
+    if key not in memo:
+        memo[key] = _build(n, lambda x: build(x, memo))
+    return memo[key]
+
+
+def _build(n, build):
     from qupulse.pulses import (ConstantPT, TablePT, PointPT, AtomicMultiChannelPT, SequencePT, RepetitionPT, ForLoopPT,
                                 MappingPT, TimeReversalPT, ParallelChannelPT, ArithmeticPT, ArithmeticAtomicPT,
                                 FunctionPT)
@@ -189,6 +212,20 @@ def run_impl(case):
             return {'crash': 'construction failed: %s: %s' % (type(e).__name__, str(e)[:200])}
         params = {k: _num(v) for k, v in case['params'].items()}
         cm = {a: b for a, b in case['cm']}
+        if case.get('top_none'):           # "not given" instead of "given as empty"
+            params, cm = (params or None), (cm or None)
+        if 'warm' in case:                 # the same template object is instantiated (and sampled) with other values first
+            try:
+                with vlib.time_limit(30):
+                    wp = pt.create_program(parameters={k: _num(v) for k, v in case['warm'].items()}, channel_mapping=cm)
+                    if wp is not None:
+                        ww = to_waveform(wp)
+                        for ch in ww.defined_channels:
+                            ww.get_sampled(ch, np.linspace(0., float(ww.duration), 7))
+            except vlib.Timeout:
+                return {'hang': True}
+            except Exception:
+                pass
         try:
             with vlib.time_limit(30):
                 prog = pt.create_program(parameters=params, channel_mapping=cm)
@@ -204,6 +241,7 @@ def run_impl(case):
             return {'crash': 'create_program: %s: %s' % (type(e).__name__, str(e)[:200])}
         if prog is None:
             return {'none': True}
+        w = None
         try:
             with vlib.time_limit(30):
                 w = to_waveform(prog)
@@ -212,8 +250,28 @@ def run_impl(case):
                 arr = np.array([float(t) for t in ts])
                 samples = []
                 chans = sorted(w.defined_channels, key=lambda c: (isinstance(c, str), c))
+                # stateful sampling: a decoy grid of the SAME length is sampled first on every channel, then the grid of
+                # the check, then everything once more (py_spec: same answers; the caller's time array is not touched)
+                decoy = arr * 0.5
                 for ch in chans:
-                    vals = w.get_sampled(ch, arr)
+                    w.get_sampled(ch, decoy)
+                arr_before = arr.copy()
+                first = {}
+                for ch in chans:
+                    first[ch] = np.array(w.get_sampled(ch, arr), dtype=float)
+                resample = None
+                for ch in reversed(chans):
+                    again = np.array(w.get_sampled(ch, arr), dtype=float)
+                    buf = np.full_like(arr, -77.)
+                    into = w.get_sampled(ch, arr, output_array=buf)
+                    ins = arr < float(dur)       # t = duration is outside the half-open interval (left unwritten there)
+                    if not (np.array_equal(again[ins], first[ch][ins], equal_nan=True)
+                            and np.array_equal(into[ins], first[ch][ins], equal_nan=True)):
+                        resample = 'get_sampled(%r, same times) answers differently when called again / into output_array' % (ch,)
+                if not np.array_equal(arr, arr_before):
+                    resample = 'get_sampled modified the caller\'s sample_times array'
+                for ch in chans:
+                    vals = first[ch]
                     row = []
                     for t, v in zip(ts, vals):
                         v = float(v)
@@ -222,11 +280,15 @@ def run_impl(case):
                     samples.append([ch, row])
                 out = {'chans': chans, 'dur': vlib.frac_json(dur), 'prog_dur': vlib.frac_json(prog.duration),
                        'samples': samples}
+                if resample:
+                    out['resample_mismatch'] = resample
                 out.update(_render_obs(prog, w, chans, dur, set(ts)))
                 return out
         except vlib.Timeout:
             return {'hang': True}
         except Exception as e:
+            if w is None and isinstance(e, ValueError):
+                return {'unplayable': str(e)[:120]}        # to_waveform(program) rejects the program
             return {'crash': 'sampling: %s: %s' % (type(e).__name__, str(e)[:200])}
 
 
@@ -261,8 +323,9 @@ def _render_obs(prog, w, chans, dur, grid):
 
 
 def py_spec(case, obs):
-    """render(program) and to_waveform(program).get_sampled must show the same voltages inside [0, duration)"""
-    return obs.get('render_mismatch')
+    """render(program) and to_waveform(program).get_sampled must show the same voltages inside [0, duration); sampling the
+    same waveform again (after a decoy grid of equal length, into a caller-provided array) gives the same voltages"""
+    return obs.get('render_mismatch') or obs.get('resample_mismatch')
 
 
 # ---------------------------------------------------------------------------------------------------------------------
@@ -363,6 +426,8 @@ def to_coq(case, obs):
         o = '(OErr %s)' % ERRK[obs['err']]
     elif 'none' in obs:
         o = 'ONone'
+    elif 'unplayable' in obs:
+        o = 'OUnplayable'
     else:
         for _, row in obs['samples'] + obs.get('render', []):
             if any(v == 'inf' for _, v in row):
@@ -374,7 +439,7 @@ def to_coq(case, obs):
             g_list('(%s, %s)' % (nm.c(ch), g_list('(%s, %s)' % (gQ(F(t)), 'None' if v is None else '(Some %s)' % gQ(F(v)))
                                                   for t, v in row))
                    for ch, row in obs['samples'] + [r for r in obs.get('render', []) if r[1]]))
-    return '(CCase %s %s %s %s)' % (p, env, cm, o)
+    return '(%s %s %s %s %s)' % ('CCaseM' if case.get('side') == 'corr' else 'CCase', p, env, cm, o)
 
 
 # ---------------------------------------------------------------------------------------------------------------------
@@ -384,6 +449,8 @@ def nontrivial(case, obs):
 
 def histogram_keys(case, obs):
     keys = ['obs:' + ('prog' if 'samples' in obs else sorted(obs)[0] if 'err' not in obs else 'err:' + obs['err'])]
+    if case.get('side') == 'corr':
+        keys.append('model-side-only')
     kinds = G.node_kinds(case['pt'])
     keys += ['node:' + k for k in sorted(set(kinds))]
     keys.append('depth:%d' % G.depth(case['pt']))
@@ -409,6 +476,17 @@ def histogram_keys(case, obs):
         keys.append('fold:' + case['fold'].split('/')[1])
     if 'render' in obs:
         keys.append('render-observed')
+    if 'family' in case:
+        keys.append('family:' + case['family'])
+    if 'rebind' in case:
+        r, i, o = case['rebind'].split('/')
+        keys += ['rebind-expr:' + r, 'rebind-below:' + i, 'rebind-pos:' + o]
+    for tag in ('selfmap', 'alias', 'dropped', 'tname_shape', 'multizero'):
+        if tag in case:
+            keys.append('%s:%s' % (tag, case[tag]))
+    for tag in ('tname', 'warm', 'top_none', 'idx_rebound', 'multi_zero'):
+        if case.get(tag):
+            keys.append(tag)
     return keys
 
 
@@ -428,6 +506,8 @@ def classify(case, obs):
         return 'par-under-transformation'
     if 'samples' in obs and case.get('final_triple'):
         return 'table-final-triple'       # in range only under time reversal; the sample at t = duration always differs
+    if case.get('multi_zero') and ('samples' in obs or 'unplayable' in obs):
+        return 'multi-zero-duration-part'  # flag set by the generator family (a part of duration <= 0 with a kept channel)
     return None
 
 
@@ -461,7 +541,7 @@ def _as_case(pt, like, keep_cm=False):
     defined = G.pt_channels(pt)
     cm = [[a, b] for a, b in like['cm'] if a in defined] if keep_cm else []
     c = {'pt': pt, 'params': params, 'cm': cm}
-    for k in ('final_triple',):
+    for k in ('final_triple', 'multi_zero'):
         if like.get(k):
             c[k] = like[k]
     return c
